@@ -110,11 +110,20 @@ pub fn gen_identity(r: &mut Rng, name: &str, procs: &Value) -> Value {
     let p = &ps[r.below(ps.len() as u64) as usize];
     let uid = p["uid"].as_u64().unwrap_or(0) as u32;
     let u = USERS.iter().find(|u| u.1 == uid).unwrap();
+    // (now and then a name that differs from a real one only in letter case: account names are compared exactly)
+    let case_variant = |r: &mut Rng, s: &str| -> String {
+        let mut v = flip_case(r, s);
+        if v == s {
+            v = s.to_uppercase();
+        }
+        v
+    };
     if r.chance(1, 2) {
-        i["userName"] = json!(if r.chance(1, 8) { "nobody" } else { u.0 });
+        i["userName"] = json!(if r.chance(1, 8) { "nobody".to_string() } else if r.chance(1, 6) { case_variant(r, u.0) } else { u.0.to_string() });
     }
     if r.chance(1, 3) {
-        i["groupName"] = json!(if r.chance(1, 8) { "nogroup" } else { *r.pick(u.2) });
+        let g = *r.pick(u.2);
+        i["groupName"] = json!(if r.chance(1, 8) { "nogroup".to_string() } else if r.chance(1, 6) { case_variant(r, g) } else { g.to_string() });
     }
     let exe = p["exe"].as_str().unwrap_or("");
     if r.chance(1, 3) {
@@ -518,7 +527,10 @@ pub fn gen_proxy(seed: u64, prop: &str, tier: &str) -> Value {
         return gen_policy_swap_storm(seed, &mut r, prop, tier);
     }
     if prop == "C01" && r.chance(1, 5) {
-        return gen_port_scarce(seed, &mut r, procs, tier);
+        return gen_port_scarce(seed, &mut r, procs, tier, prop);
+    }
+    if prop == "C03" && r.chance(1, 6) {
+        return gen_port_scarce(seed, &mut r, procs, tier, prop);
     }
     if prop == "C03" && r.chance(1, 4) {
         return gen_c03_unsettled(seed, &mut r, procs, tier);
@@ -621,7 +633,7 @@ fn gen_c03_unsettled(seed: u64, r: &mut Rng, procs: Value, tier: &str) -> Value 
 /// (orderly, reset or closed in the middle of a request, garbage instead of a request, idle keep-alive dropped) and direct
 /// connections to the listener follow on the same ports: whatever the earlier connection left behind must not attribute
 /// the later one.
-fn gen_port_scarce(seed: u64, r: &mut Rng, procs: Value, tier: &str) -> Value {
+fn gen_port_scarce(seed: u64, r: &mut Rng, procs: Value, tier: &str, prop: &str) -> Value {
     let nprocs = procs.as_array().unwrap().len() as u64;
     let nports = 1 + r.below(3);
     let mut steps = Vec::new();
@@ -662,7 +674,15 @@ fn gen_port_scarce(seed: u64, r: &mut Rng, procs: Value, tier: &str) -> Value {
             }
         }
         conns.push(c);
+        // now and then the endpoint is unreachable when the proxy opens its upstream connection for this client
+        let faulted = dst != "direct" && r.chance(1, 4);
+        if faulted {
+            steps.push(json!({"t": "net_fault", "dst": dst, "agent": true, "kind": {"f": "refuse"}}));
+        }
         steps.push(json!({"t": "clients", "conns": conns}));
+        if faulted {
+            steps.push(json!({"t": "clear_faults"}));
+        }
         if r.chance(1, 3) {
             steps.push(json!({"t": "sleep", "ms": *r.pick(&[1u64, 20, 300])}));
         }
@@ -671,8 +691,8 @@ fn gen_port_scarce(seed: u64, r: &mut Rng, procs: Value, tier: &str) -> Value {
     let mut knobs = gen_knobs(r, true);
     knobs["net.connect_lat_max_ms"] = json!(0);
     json!({
-        "scenario": "proxy:C01", "seed": seed, "family": "proxy", "prop": "C01", "variant": "port_scarce", "ports": [40000, nports],
-        "knobs": knobs, "procs": procs, "users": users_json(), "steps": steps, "oracles": ["C01", "C03"],
+        "scenario": format!("proxy:{}", prop), "seed": seed, "family": "proxy", "prop": prop, "variant": "port_scarce", "ports": [40000, nports],
+        "knobs": knobs, "procs": procs, "users": users_json(), "steps": steps, "oracles": if prop == "C03" { vec!["C03", "C01"] } else { vec!["C01", "C03"] },
         "config": {"pollKeyStatusIntervalInSeconds": 15}, "settle_ms": 3000, "faulty": false
     })
 }
